@@ -9,6 +9,9 @@ Traces == JsonDeserialize(IOEnv.TRACE_FILE)
 
 VARIABLES tid, l
 tvars == <<vars, tid, l>>
+\* the schema a trace was recorded on: position in FamilySeq (1 = TheSchema)
+TrSid(t) == IF "sid" \in DOMAIN Traces[t].init THEN Traces[t].init.sid ELSE 1
+TrS(t) == Bind(FamilySeq[TrSid(t)], RootPrefix(FamilySeq[TrSid(t)]))
 
 \* JSON has no sets and no empty records: rebuild configuration values
 RECURSIVE FixV(_)
@@ -29,8 +32,9 @@ FixOp(o) ==
 TraceInit ==
     /\ tid \in 1..Len(Traces)
     /\ l = 1
+    /\ sid = TrSid(tid) /\ sch = TrS(tid)
     /\ cfgs = FixCfgs(Traces[tid].init.cfgs)
-    /\ LET d == DefaultCfg(S, <<>>) IN \A n \in Names : Built(n) => cfgs[n] = d.cfg
+    /\ LET d == DefaultCfg(TrS(tid), <<>>) IN \A n \in Names : Built(n) => cfgs[n] = d.cfg
     /\ ev = [op |-> "Init"]
     /\ steps = 0
 
@@ -47,11 +51,12 @@ Step(e) ==
       [] e.op = "ValidateCollect" -> CheckCollect(e.n)
       [] e.op = "CopyTree" -> CopyTree(e.src, e.n)
       [] e.op = "Query" -> Query(e.n)
+      [] e.op = "RoundTrip" -> RoundTrip(e.n, e.fmt)
 
 TraceNext ==
     /\ l <= Len(Traces[tid].events)
     /\ Step(Ev)
-    /\ steps' = steps
+    /\ steps' = steps /\ UNCHANGED <<sid, sch>>
     /\ l' = l + 1
     /\ UNCHANGED tid
 
@@ -64,12 +69,13 @@ BadObs ==
 
 \* action properties, evaluated on the observed step
 BadAct ==
-    {n \in {"C01_Readback", "C06_Unchanged", "C12_Marks", "C12_Reset", "C13_Isolated"} :
+    {n \in {"C01_Readback", "C06_Unchanged", "C12_Marks", "C12_Reset", "C13_Isolated", "C02_Reproduces"} :
         CASE n = "C01_Readback"  -> ~A_Readback
           [] n = "C06_Unchanged" -> ~A_Unchanged
           [] n = "C12_Marks"     -> ~A_Marks
           [] n = "C12_Reset"     -> ~A_Reset
-          [] n = "C13_Isolated"  -> ~A_Isolated}
+          [] n = "C13_Isolated"  -> ~A_Isolated
+          [] n = "C02_Reproduces" -> ~A_Reproduces}
 
 Report ==
     LET bo == BadObs
